@@ -1,0 +1,14 @@
+//go:build verif
+
+// load.go is not under contract (see /verif/DESIGN.md 10.6, C09). The only things pinned here
+// are the regular expressions that define which file names of the published v2 layout the
+// loader accepts (C20, C09): they are compared with the literals below on the SSA of the
+// package, not by a solver. Comment-only file.
+
+package disk
+
+// <hash>[-<logical size>]-<random digits/ascii letters>[.v1]
+//@ conststr[C20] scanDir:MustCompile#0 = "^([a-f0-9]{64})(?:-([1-9][0-9]*))?-([0-9a-zA-Z]+)(\\.v1)?$"
+// two-hex-digit sub directories
+//@ conststr[C20] scanDir:MustCompile#1 = "^[a-f0-9]{2}$"
+//@ conststr[C20] migrateDirectory:MustCompile#0 = "^[a-f0-9]{2}$"
